@@ -391,28 +391,30 @@ where
 
             // Nothing is happening. We may be the first to start initializing.
             let attempt_signal = Arc::new(ManualResetEvent::new(EventState::Unset));
-            let attempt = RegionalValue::<T>::Initializing(Arc::clone(&attempt_signal));
+            let attempt = Some(Arc::new(RegionalValue::<T>::Initializing(Arc::clone(
+                &attempt_signal,
+            ))));
 
-            let previous_value = self.value.compare_and_swap(reader, Some(Arc::new(attempt)));
+            let previous_value = self.value.compare_and_swap(reader, attempt.clone());
 
             if !previous_value.is_none() {
                 // Someone raced ahead of us. Re-enter loop.
                 continue;
             }
 
-            // We must ensure that if initialization panics, we reset the state
-            // and signal any waiting threads to prevent them from waiting forever.
-            let cleanup_signal = Arc::clone(&attempt_signal);
-            let cleanup_self = self; // Create a reference for the cleanup
-            let cleanup_guard = scopeguard::guard((), move |()| {
-                // If we are still in panic mode when this guard executes, reset the
-                // initializing state to None and signal waiters so they can retry.
-                cleanup_self.value.store(None);
-                cleanup_signal.set();
+            // We must ensure that if initialization panics, we reset the state (unless a
+            // `set()` has replaced our marker meanwhile) and signal any waiting threads to
+            // prevent them from waiting forever.
+            let cleanup_guard = scopeguard::guard((), |()| {
+                self.value.compare_and_swap(&attempt, None);
+                attempt_signal.set();
             });
 
+            // Only install the initial value if our marker is still there: a `set()` that
+            // completed while the initializer was running is a newer value and must win.
             let new_value = RegionalValue::Ready(initializer());
-            self.value.store(Some(Arc::new(new_value)));
+            self.value
+                .compare_and_swap(&attempt, Some(Arc::new(new_value)));
 
             // We are done initializing. Notify all waiters that they can continue.
             attempt_signal.set();
